@@ -6,6 +6,7 @@ LEVEL = 'other'
 
 def run(res):
     common.prove(res, c02.KIT_L)
+    c02.kit_s_part(res)
     diffcommon.run_diff_cases(res, {'C01'}, 'C01', {}, quick=(32, 80), thorough=(128, 300), cli=3 if res.tier == 'quick' else 10)
     res.coverage['explanation'] = (
         'Proof part (shared with C02): %d obligations over the generic list differ/patcher that the notebook differ is built on, %d discharged. '
